@@ -24,7 +24,7 @@ func init() {
 			"C05.nib: DefaultParser evaluated on a text of the plain layout (36 bytes, hyphens at 8, 13, 18, 23) and of the URN layout (45 bytes, lower-case prefix), flags clear, the digit function replaced by the four bits of the digit at its text position: the resulting ID holds the first sixteen digits in Higher and the last sixteen in Lower, most significant first, bit for bit; a hyphen expected elsewhere or a digit read from a hyphen position fails the evaluation (this subsumes the hyphen-offset agreement). " +
 			"C05.digit: parseDigit as a table over the byte intervals induced by its own comparisons: '0'..'9' ↦ 0..9, 'a'..'f' ↦ 10..15, 'A'..'F' ↦ 10..15 only when upper case is allowed, everything else (0,false). " +
 			"C05.strict: decision table of the pre-loop part of DefaultParser over (len = 36 / 45 / other, RuleDisableURN, prefix bytes, hyphen bytes) compared with the documented outcomes; the URN literals agree. C05.ver: Version() = bits 15..12 of Higher; Variant() as a table over the top three bits of Lower. S-ERRZERO, S-WRAP, typed errors, C18.L for package uu." +
-			" C05.reject: every call of a digit-loop helper has its verdict tested. Since audit round 3: the length atoms of C05.strict are ordered (a length between 36 and 45 is a valuation of its own); C05.reject reads every helper of the parser that calls the digit function, at each of its calls; C05.nib is read under seven settings of the rule flags and prefix spelling.",
+			" C05.reject: every call of a digit-loop helper has its verdict tested. Since audit round 3: the length atoms of C05.strict are ordered (a length between 36 and 45 is a valuation of its own); C05.reject reads every helper of the parser that calls the digit function, at each of its calls; C05.nib is read under thirteen settings of the rule flags and prefix spelling (every case pattern of the letters u, r, n).",
 		NotDecided:  []string{"a digit-function call two levels below the parser (undecided when found)", "fmt's %x rendering and the other stdlib summaries; otherwise the property is decided for all 2^128 IDs and all byte strings", "which method encoding/json picks for uu.ID (the property observes the formatter, String, URN, MarshalText/UnmarshalText and the fmt verbs)"},
 		Assumptions: []string{"fmt %0Wx prints exactly W lower-case hex digits for a value below 16^W", "Variant() is read as the number of leading one bits of the variant field, at most 3 — the library's documented encoding of the RFC 4122 fields 0, 10, 110, 111; that only Lower[63:61] matters is decided, the codomain is taken from the doc comment"},
 		Technique:   "format-string reading + bit-provenance + decision-table extraction over go/ssa",
